@@ -484,6 +484,15 @@ fn crafted_amount_list(seed: u64) -> (Vec<u8>, Option<bool>) {
             out.push(0xff);
         }
     };
+    if rng.chance(1, 4) {
+        // a definite-length list in which a break stands where an element is announced
+        let mut b = vec![0x80 | (n as u8 + 1)];
+        for _ in 0..n {
+            amount(&mut rng, false, &mut b);
+        }
+        b.push(0xff);
+        return (b, Some(false));
+    }
     let mut b = vec![0x9f];
     match rng.below(3) {
         0 => {
@@ -609,6 +618,49 @@ fn crafted_unknown_field(seed: u64) -> (Vec<u8>, Option<bool>) {
     (b, Some(ok))
 }
 
+/// Metadata URLs with entries a foreign encoder may add. Unknown *text* keys are kept in the
+/// additional map; a key of another type, or a break where an entry is announced, is not acceptable.
+fn crafted_metadata_url(seed: u64) -> (Vec<u8>, Option<bool>) {
+    let mut rng = Rng::new(seed);
+    fn text(s: &str, out: &mut Vec<u8>) {
+        out.push(0x60 | s.len() as u8);
+        out.extend_from_slice(s.as_bytes());
+    }
+    let mut b = vec![0xa2];
+    text("url", &mut b);
+    text("https://x", &mut b);
+    match rng.below(5) {
+        0 => {
+            text("extra", &mut b);
+            b.push(0x05);
+            (b, Some(true))
+        }
+        1 => {
+            // unsigned integer key
+            b.push(rng.below(24) as u8);
+            b.push(0x01);
+            (b, Some(false))
+        }
+        2 => {
+            // negative integer key
+            b.push(0x20 | rng.below(24) as u8);
+            b.push(0x01);
+            (b, Some(false))
+        }
+        3 => {
+            // the second entry is missing: a break stands in its place
+            b.push(0xff);
+            (b, Some(false))
+        }
+        _ => {
+            // byte-string key
+            b.extend_from_slice(&[0x41, 0x35]);
+            b.push(0x01);
+            (b, Some(false))
+        }
+    }
+}
+
 fn with_crafted(mut s: Subject, c: Box<dyn Fn(u64) -> (Vec<u8>, Option<bool>) + Send + Sync>) -> Subject {
     s.crafted = Some(c);
     s
@@ -699,7 +751,7 @@ pub fn cbor_subjects() -> Vec<Subject> {
         plt::TokenListUpdateEventDetails { target: g_holder(r) }
     }));
     v.push(cbor_subject::<plt::TokenPauseEventDetails>("TokenPauseEventDetails", false, |_| plt::TokenPauseEventDetails {}));
-    v.push(cbor_subject::<plt::MetadataUrl>("MetadataUrl", false, g_metadata_url));
+    v.push(with_crafted(cbor_subject::<plt::MetadataUrl>("MetadataUrl", false, g_metadata_url), Box::new(crafted_metadata_url)));
     v.push(cbor_subject::<plt::TokenModuleState>("TokenModuleState", false, |r| plt::TokenModuleState {
         name:               if r.coin() { Some(g_string(r)) } else { None },
         metadata:           if r.coin() { Some(g_metadata_url(r)) } else { None },
